@@ -16,3 +16,4 @@ open PubModel.C11
 #print axioms gen_read_shape
 #print axioms gen_build_shape
 #print axioms gen_rule_types
+#print axioms gen_digest_covers_qualified_name
